@@ -22,8 +22,10 @@ CLAIMED = {
              "occurrence. Every tree becomes an equation of a model (source text from the spec) and is observed at all three places the property names: "
              "systemize() (A/B cells through the implementation's own token labels), the stacked-time evaluator's eval_func/eval_jacob over three "
              "periods with different data in every column (whole rows compared, so placement is decided too), and the flat and nonflat steady "
-             "evaluators' eval_jacob (levels and changes, time 0 and time k blocks, chain rule for the log-variable); a construct is either "
-             "differentiated to the spec's value or rejected.",
+             "evaluators' eval_jacob (levels and changes, time 0 and time k blocks, chain rule for the log-variable), and - the same tree one period "
+             "earlier as a measurement equation - in the F and G blocks of the measurement system; a construct is either differentiated to the spec's "
+             "value or rejected. The stacked-time Jacobian WITH the first-order terminal condition is decided on the linear library (leads, second lead, "
+             "second lag): one full Newton step from an arbitrary starting point must land on the spec's exact path.",
         note="Trusted: TLC, the harness' tree evaluator with math/scipy primitives. Bounds: trees of depth <= 2 (quick: seeded 6% of the depth-2 ones), "
              "one evaluation point per observer (three per tree for the stacked-time Jacobian), positive bases for ^, kinks excluded; user functions are "
              "differentiated by finite differences, compared at 2e-6.",
@@ -34,7 +36,9 @@ CLAIMED = {
              "prediction errors, their covariances, determinants and quadratic forms as exact conditional moments (rational linear solves); TLC "
              "checks non-negativity and the data-reproduction/equation identities on them. kalman_filter(return_info=True) is compared group by "
              "group, period by period, with these moments, and the likelihood, its contributions (zero without observations) and var_scale with "
-             "the exact prediction-error decomposition, in level and deviation mode.",
+             "the exact prediction-error decomposition, in level and deviation mode; with rescale_variance the likelihood concentrated at the maximum-likelihood "
+             "scale and the rescaled smoothed moments. For unit-root models (no exact moments) the recursion clauses are evaluated on the output: prediction "
+             "step, update without observation, last period, predicted measurement.",
         note="Trusted: TLC, numpy. Bounds: 4 stationary library models (1-2 states, 1-2 observables, lagged state in the measurement equation), 3 periods, "
              "3-4 missing-data masks, 2x2 variance settings. Unit-root (diffuse) initialisation is not covered by exact moments.",
         design="5/C03", technique="TLA+ spec (KalmanMC over GaussSS) model-checked by TLC in exact rational arithmetic; every TLC-computed scenario replayed into irispie"),
@@ -61,9 +65,10 @@ CLAIMED = {
              "trusted: LinearRE.tla simulates period by period and TLC checks in exact rational arithmetic, on every behaviour, that every "
              "structural equation has zero residual with leads read from the model-consistent continuation (the property itself), that the steady "
              "state is the fixed point, and that level = steady + deviation; root certificates are checked against the characteristic polynomials. "
-             "The model source emitted by the spec is parsed, solved and simulated by irispie; whole paths and root counts are compared.",
-        note="Trusted: TLC, scipy QZ/numpy primitives. Bounds: the library (rational roots, <= 2 states, lag/lead 1, log-variables, measurement with a "
-             "lagged state), 4 periods, shocks in {-1,1,2}. Complex roots, larger models and arbitrary parameters are out of bound.",
+             "The model source emitted by the spec is parsed, solved and simulated by irispie; whole paths and root counts are compared; two library "
+             "models of the same shape are also run as the two parameter variants of ONE parametric linear model (variant k must follow its own spec path).",
+        note="Trusted: TLC, scipy QZ/numpy primitives. Bounds: the library (rational roots, <= 2 states, leads and lags up to 2, log-variables, measurement "
+             "with lagged states), 4 periods, shocks in {-1,1,2} (thorough: 5 initial windows x 8 x 8 shock profiles). Complex roots, larger models and arbitrary parameters are out of bound.",
         design="5/C01", technique="TLA+ spec (ModelLib, LinearRE) model-checked by TLC in exact rational arithmetic; every TLC-generated behaviour replayed into irispie"),
     "C05": dict(
         text="SteadyMC.tla holds a library of models with their exact steady solutions (levels and changes) as certificates that are not trusted: TLC "
@@ -72,9 +77,10 @@ CLAIMED = {
              "emitted by the spec is solved by solve_steady in every configuration (split_into_blocks default/True/False, one and two variants); "
              "levels, changes and endogenized parameters are compared with the certificate and every steady equation is re-evaluated on the stored "
              "path at several dates with the harness' own tree evaluator.",
-        note="Trusted: TLC, the harness' tree evaluator. Bounds: 6 library instances (flat nonlinear two-block; balanced growth with log-variables "
+        note="Trusted: TLC, the harness' tree evaluator. Bounds: 8 library instances (flat nonlinear two-block; balanced growth with log-variables "
              "and fix_level; linear growth; linear forward-looking; log-linear with lag/lead 2 under linear=True; exogenize-variable/endogenize-parameter "
-             "plan). The statement is conditional on solve_steady completing; Newton convergence is not decided. One known finding (linear models ignore "
+             "plan; flat mode with an exogenous variable carrying a stale change; linear growth with a unit root, drift and measurement equations), flat flag "
+             "given at creation or at solve time. The statement is conditional on solve_steady completing; Newton convergence is not decided. One known finding (linear models ignore "
              "steady plans).",
         design="5/C05", technique="TLA+ spec (SteadyMC) model-checked by TLC in exact rational arithmetic; every TLC-verified instance replayed into irispie's solve_steady"),
     "C06": dict(
@@ -103,20 +109,25 @@ CLAIMED = {
         text="Ols.tla lays out the VAR regressors, selects exactly the complete periods and solves the normal equations exactly (LinSolve); TLC "
              "verifies the solution, the orthogonality of residuals to every regressor and the recovery of noise-free VARs. Every scenario is "
              "replayed through RedVAR.estimate (coefficients, residuals, covariance with and without dof correction), simulate with the estimated "
-             "residuals, and the companion-form mean, eigenvalues and autocovariances.",
+             "residuals, and the companion-form mean, eigenvalues, largest modulus / stability flag and autocovariances. Prior dummy observations "
+             "(Minnesota and mean priors) are rows of the same normal equations in the spec and are passed as prior_obs to estimate.",
         note="Trusted: TLC, numpy (companion-form eigenvalues/Lyapunov of the spec's exact coefficients). Bounds: <= 2 endogenous, <= 1 exogenous, order <= 2, "
-             "T <= 8, 6 missing patterns. Priors/resampling not covered. One known finding (simulate with exogenous variables and order >= 2).",
+             "T <= 8 (thorough 10), 6-11 missing patterns, priors with integer parameters. Resampling not covered. One known finding (simulate with order >= 2).",
         design="5/C18", technique="TLA+ spec (Ols over LinSolve) model-checked by TLC; every TLC-computed scenario replayed into irispie"),
     "C14": dict(
         text="Hp.tla states the constrained Hodrick-Prescott problem and solves its optimality conditions exactly (fraction-free elimination in "
              "TLA+); TLC verifies on every scenario that the solution satisfies the KKT system, meets the constraints exactly and returns a straight "
              "line unchanged. Every scenario (observation patterns, level/change constraints inside and outside the data, output spans, log mode, "
-             "two-variant stacks) is replayed through hpf / hpf_trend / hpf_gap: trend = exact optimum, trend+gap = data, span only clips.",
-        note="Trusted: TLC, numpy.linalg.solve. Bounds: 3-5 data periods, lambda in {1,4}, KKT dimension <= 7 (32-bit integers). lonf is not covered.",
+             "two-variant stacks) is replayed through hpf / hpf_trend / hpf_gap: trend = exact optimum, trend+gap = data, span only clips. Lonf.tla states "
+             "the optimality conditions of the l1 trend filter and finds the optimum exactly by enumerating sign patterns of D x (each pattern an integer "
+             "linear system); TLC checks that a consistent pattern exists and that all consistent patterns give the same trend; lonf (orders 1, 2) is "
+             "compared with it, one and two variants, with the smoothing weight varied between calls of the same shape.",
+        note="Trusted: TLC, numpy.linalg.solve, the QP solver daqp (lonf compared at 1e-6). Bounds: 2-5 data periods, lambda in {1,4} (thorough {1,2,4}), KKT dimension <= 7 "
+             "(32-bit integers), one or two change constraints; lonf: 3-6 periods of complete data, lambda in {1,2,5} (thorough also 3, 20).",
         design="5/C14", technique="TLA+ spec (Hp over LinSolve) model-checked by TLC; every TLC-computed scenario replayed into irispie"),
     "C20": dict(
-        text="ModelObjects.tla keeps, per handle, the sequence of variant records [parameters, steady-for, solved-for]; assign/steady/solve/"
-             "alter_num_variants/copy/pickle/dill/save-load are actions; independence (an action changes only its own handle) and duplicate "
+        text="ModelObjects.tla keeps, per handle, the sequence of variant records [parameters, steady-for, solved-for] and the tolerance setting; "
+             "assign/steady/solve/alter_num_variants/override_tolerance/copy/pickle/dill/save-load are actions; independence (an action changes only its own handle) and duplicate "
              "equivalence are action properties checked by TLC on every generated step. Simulated behaviours are replayed on a Simultaneous "
              "growth model with log-variables and on a Sequential model; after every step every variant of every handle is compared with a "
              "fresh single-variant reference resolved from the record (steady levels/changes, solution matrices, simulations).",
@@ -128,17 +139,21 @@ CLAIMED = {
              "underlay/clip/prepend act in place, CSV and dataslate round trips create fresh objects with the same content on the selected "
              "names/span); the frame conditions of the property are action properties checked by TLC on every step of every generated "
              "behaviour; simulated behaviours over three handles are replayed through irispie (real CSV files and Dataslates) and after every "
-             "step names, contents, descriptions, frequencies and the object-sharing structure of all handles are compared.",
+             "step names, contents, descriptions, frequencies and the object-sharing structure of all handles are compared. In the other direction a "
+             "seeded driver builds random databoxes (all six frequencies, 1-3 variants, NaN and infinite values, empty series, numbers, lists, descriptions "
+             "with commas and quotes) and applies random operations incl. CSV round trips with round / frequency_span / delimiter / nan_str options; TLC "
+             "validates every recorded history against the actions of Databox.tla (TraceDatabox.tla), the CSV step relationally (values read back are "
+             "multiples of 10^-round within half a unit); corrupted histories must be rejected at the corrupted line.",
         note="Trusted: TLC (simulation mode: behaviours are sampled, not exhaustive). Bounds: 9 initial items (Q/M/I series, 1-2 variants, an empty "
-             "series, a number), depth 9. Renames onto existing names are not generated.",
-        design="5/C19", technique="TLA+ spec (Databox) with action properties checked by TLC on simulated behaviours; behaviours replayed into irispie"),
+             "series, a number), depth 9; 200 (quick) / 1200 (thorough) recorded histories of 12 steps. Renames onto existing names are not generated.",
+        design="5/C19", technique="TLA+ spec (Databox) with action properties checked by TLC on simulated behaviours; behaviours replayed into irispie; histories recorded from irispie validated by TLC against the trace spec"),
     "C17": dict(
         text="SeqSim.tla is the simulator as a state machine, one step per (equation, period) in either execution order, with simulate and "
              "exogenize branches and exact transforms; TLC checks after every step that the equation just processed holds with its residual, at the "
              "end that all equations hold when no value was read before being computed, that exogenized variables take the implied value, and the "
              "frame condition. Every scenario (source text emitted by the spec, also written in rotated order and restored by reorder_equations) "
              "is run through Sequential.simulate and the whole output compared with the spec's final state.",
-        note="Trusted: TLC, numpy exp/log. Bounds: 5 models of 2-3 equations, 3 periods, lags <= 2, plans with <= 2 exogenized variables, values integer or exp(integer).",
+        note="Trusted: TLC, numpy exp/log. Bounds: 5 models of 2-3 equations, 3 periods, lags <= 2, plans with <= 2 exogenized variables (transform shifts -1 and -2), values integer or exp(integer).",
         design="5/C17", technique="TLA+ spec (SeqSim) model-checked by TLC; every TLC-generated scenario/behaviour replayed into irispie"),
     "C16": dict(
         text="Blocks.tla specifies a valid block ordering as a state machine (SolveBlock enabled only for a square, structurally non-singular "
@@ -153,7 +168,7 @@ CLAIMED = {
              "arithmetic; TLC checks that groups tile the source and that aggregate(disaggregate(x)) = x for the matching method pairs on every "
              "scenario; Arip.tla solves the documented constrained smoothing problem exactly (fraction-free elimination of the KKT system, "
              "solution verified by TLC). Every scenario is replayed through irispie.aggregate/disaggregate.",
-        note="Trusted: TLC, the TLA+ calendar. Bounds: starts in every segment / around month, quarter, year ends and leap days, 2-4 lengths, "
+        note="Trusted: TLC, the TLA+ calendar. Bounds: starts in every segment / around month, quarter, year ends and leap days (incl. daily samples ending on 31 December of a leap year), 2-4 lengths, "
              "7 missing/variant patterns; arip with <= 8 high-frequency periods, integer-rate data for the rate form. min/max with a partly "
              "missing group unspecified. One known finding (regular -> DAILY disaggregation).",
         design="5/C12", technique="TLA+ spec (Convert, Arip over Calendar/LinSolve) model-checked by TLC; every TLC-computed scenario replayed into irispie"),
@@ -161,16 +176,19 @@ CLAIMED = {
         text="Series.tla defines every public operation as a transformer of the (period, variant) -> value map; TLC checks the laws of the "
              "property (write frame, read, purity of functional forms, canonical trimmed span, shift exactness) on every small series state x "
              "operation instance and isolation between handles on operation histories; all these transitions and simulated histories over "
-             "three handles are replayed through irispie.Series and compared cell by cell, with storage aliasing observed directly.",
+             "three handles are replayed through irispie.Series and compared cell by cell, with storage aliasing observed directly. In the other direction "
+             "a seeded driver applies random operations (windows of 40 periods, values -9..9, 1-4 variants, 4 handles, 30 steps, six frequencies) to real "
+             "Series objects, logs every handle after every step, and TLC validates each recorded history against SeriesHist's own step relation "
+             "(TraceSeries.tla); a history with one corrupted field must be rejected at exactly that line (checked on every run).",
         note="Trusted: TLC, numpy element-wise primitives. Bounds: values {NaN,2,-3}, 3-4 period windows, 1-2 variants, about 180 operation "
-             "instances; histories of depth 12. Spans after clip and element-wise methods need only cover the observations.",
-        design="5/C10", technique="TLA+ spec (Series) model-checked by TLC; every TLC-computed transition and simulated histories replayed into irispie"),
+             "instances; histories of depth 12; 250 (quick) / 1500 (thorough) recorded histories. Spans after clip and element-wise methods need only cover the observations.",
+        design="5/C10", technique="TLA+ spec (Series) model-checked by TLC; TLC-computed transitions and simulated histories replayed into irispie; histories recorded from irispie validated by TLC against the trace spec"),
     "C13": dict(
         text="Temporal.tla states the documented formulas in exact arithmetic on powers of two and TLC checks on every enumerated scenario that "
              "cumulating a change with the original as initial condition returns the original (forward and backward, shifts -1..-4); every "
              "scenario (6 frequencies, integer and keyword shifts, annualised variants, helpers, cumulations) is replayed through irispie.",
         note="Trusted: TLC, numpy log/exp/power. Bounds: 7 input series of 9 periods across a year end, 1-2 variants, interior and edge NaNs. "
-             "diff_log/pct with tty in start-of-year periods and daily annualised variants are unspecified/out of bound.",
+             "diff_log/pct with tty in start-of-year periods are unspecified; daily annualised variants on one non-decreasing series (2^(365 j) must stay in double precision).",
         design="5/C13", technique="TLA+ spec (Temporal) model-checked by TLC; every TLC-computed scenario replayed into irispie"),
     "C09": dict(
         text="TLC checks the order/arithmetic/tiling/accessor/keyword-shift laws on every enumerated period (Calendar.tla) and the "
